@@ -76,6 +76,12 @@ func c15CanonValue(v reflect.Value, sb *strings.Builder) {
 			sb.WriteString("nil")
 			return
 		}
+		// a pointer to a zero-length slice: gob flattens pointers and does not send a zero-length slice,
+		// it comes back as a nil pointer (Model/Profile.v cptr_list makes the same identification)
+		if v.Kind() == reflect.Ptr && v.Elem().Kind() == reflect.Slice && v.Elem().Len() == 0 {
+			sb.WriteString("nil")
+			return
+		}
 		sb.WriteString("&")
 		c15CanonValue(v.Elem(), sb)
 	case reflect.Struct:
@@ -137,6 +143,240 @@ func c15CanonBytes(b []byte) (string, error) {
 func c15Hash(s string) string {
 	h := sha256.Sum256([]byte(s))
 	return hex.EncodeToString(h[:6])
+}
+
+// ---------------------------------------------------------------- a profile as a term of Model/Profile.v
+//
+// C15, first clause — a userProfile rendered as a term of coq/theories/Model/Profile.v, so that Coq
+// evaluates  profile_eqb (canon (gob_roundtrip saved)) (canon loaded)  on every (saved, loaded) pair
+// that went through the real SaveUserProfile / LoadUserProfile.
+//
+// What the rendering keeps: every exported field of userProfile and of the structs it reaches (the
+// fields gob carries), maps with their keys in Go's iteration order (the model sorts), nil / empty
+// kept apart for maps, slices and pointers (the model decides what of that is content).
+// What it abstracts: a byte string or string longer than c15AbsLen bytes is rendered as
+// [256 + length; first 6 bytes of its SHA-256] (an element >= 256 cannot be a byte, so the two forms
+// never collide); a u2f.Registration is its Raw bytes (its own MarshalBinary — what gob carries of it);
+// SessionData.Extensions is the byte string of its sorted "key=value," listing; a time is
+// Unix()*10^9 + Nanosecond() (location and monotonic reading are not content).
+
+const c15AbsLen = 14
+
+// transport: seven bytes per 63-bit integer literal (Base/Pack.v; Coq reads number literals slowly);
+// sb n ws = the n bytes packed in ws, pdig n w = [256 + n; the six bytes of w] (defined in the case file)
+func c15CoqElems(b []byte) string {
+	if len(b) == 0 {
+		return "[]"
+	}
+	if len(b) > c15AbsLen {
+		h := sha256.Sum256(b)
+		var w uint64
+		for j := 0; j < 6; j++ {
+			w |= uint64(h[j]) << (8 * uint(j))
+		}
+		return fmt.Sprintf("(pdig %d %d%%uint63)", len(b), w)
+	}
+	var ws []string
+	for i := 0; i < len(b); i += 7 {
+		var w uint64
+		for j := 0; j < 7 && i+j < len(b); j++ {
+			w |= uint64(b[i+j]) << (8 * uint(j))
+		}
+		ws = append(ws, strconv.FormatUint(w, 10))
+	}
+	return fmt.Sprintf("(sb %d [%s]%%uint63)", len(b), strings.Join(ws, ";"))
+}
+
+func c15CoqStr(s string) string { return c15CoqElems([]byte(s)) }
+
+func c15CoqGbytes(b []byte) string {
+	if b == nil {
+		return "None"
+	}
+	return "(Some " + c15CoqElems(b) + ")"
+}
+
+func c15CoqBytesList(l [][]byte) string {
+	if l == nil {
+		return "None"
+	}
+	var el []string
+	for _, b := range l {
+		el = append(el, c15CoqGbytes(b))
+	}
+	return "(Some [" + strings.Join(el, ";") + "])"
+}
+
+func c15CoqStrList(l []string) string {
+	if l == nil {
+		return "None"
+	}
+	var el []string
+	for _, s := range l {
+		el = append(el, c15CoqStr(s))
+	}
+	return "(Some [" + strings.Join(el, ";") + "])"
+}
+
+func c15CoqZ(v *big.Int) string {
+	if v.Sign() < 0 {
+		return "(" + v.String() + ")%Z"
+	}
+	return v.String() + "%Z"
+}
+
+func c15CoqInt(v int64) string   { return c15CoqZ(big.NewInt(v)) }
+func c15CoqUint(v uint64) string { return c15CoqZ(new(big.Int).SetUint64(v)) }
+
+func c15CoqTime(t time.Time) string {
+	v := new(big.Int).Mul(big.NewInt(t.Unix()), big.NewInt(1000000000))
+	return c15CoqZ(v.Add(v, big.NewInt(int64(t.Nanosecond()))))
+}
+
+func c15CoqBool(b bool) string {
+	if b {
+		return "true"
+	}
+	return "false"
+}
+
+func c15CoqRegistration(r *u2f.Registration) string {
+	if r == nil {
+		return "None"
+	}
+	raw := r.Raw
+	if raw == nil {
+		raw = []byte{}
+	}
+	return c15CoqGbytes(raw)
+}
+
+func c15CoqExtensions(m map[string]interface{}) string {
+	if m == nil {
+		return "None"
+	}
+	keys := make([]string, 0, len(m))
+	for k := range m {
+		keys = append(keys, k)
+	}
+	sort.Strings(keys)
+	var sb strings.Builder
+	for _, k := range keys {
+		fmt.Fprintf(&sb, "%s=%v,", k, m[k])
+	}
+	return c15CoqGbytes([]byte(sb.String()))
+}
+
+func c15CoqChallenge(c *u2f.Challenge) string {
+	if c == nil {
+		return "None"
+	}
+	return fmt.Sprintf("(Some (mk_chal %s %s %s %s))", c15CoqGbytes(c.Challenge), c15CoqTime(c.Timestamp), c15CoqStr(c.AppID), c15CoqStrList(c.TrustedFacets))
+}
+
+func c15CoqSession(s *webauthn.SessionData) string {
+	if s == nil {
+		return "None"
+	}
+	return fmt.Sprintf("(Some (mk_sess %s %s %s %s %s))", c15CoqStr(s.Challenge), c15CoqGbytes(s.UserID), c15CoqBytesList(s.AllowedCredentialIDs),
+		c15CoqStr(string(s.UserVerification)), c15CoqExtensions(s.Extensions))
+}
+
+// a nil element of a map is not a value of the model (gob refuses to encode it): ok = false
+func c15CoqProfile(p *userProfile) (term string, ok bool) {
+	ok = true
+	u2fMap := "None"
+	if p.U2fAuthData != nil {
+		var el []string
+		for k, e := range p.U2fAuthData {
+			if e == nil {
+				ok = false
+				continue
+			}
+			el = append(el, fmt.Sprintf("(%s, mk_u2f %s %s %s %s %s %s)", c15CoqInt(k), c15CoqBool(e.Enabled), c15CoqTime(e.CreatedAt), c15CoqStr(e.CreatorAddr),
+				c15CoqUint(uint64(e.Counter)), c15CoqStr(e.Name), c15CoqRegistration(e.Registration)))
+		}
+		u2fMap = "(Some [" + strings.Join(el, ";") + "])"
+	}
+	totpMap := "None"
+	if p.TOTPAuthData != nil {
+		var el []string
+		for k, e := range p.TOTPAuthData {
+			if e == nil {
+				ok = false
+				continue
+			}
+			el = append(el, fmt.Sprintf("(%s, mk_totp %s %s %s %s %s %s)", c15CoqInt(k), c15CoqBool(e.Enabled), c15CoqTime(e.CreatedAt), c15CoqStr(e.Name),
+				c15CoqBytesList(e.EncryptedSecret), c15CoqInt(int64(e.TOTPType)), c15CoqStr(e.ValidatorAddr)))
+		}
+		totpMap = "(Some [" + strings.Join(el, ";") + "])"
+	}
+	waMap := "None"
+	if p.WebauthnData != nil {
+		var el []string
+		for k, e := range p.WebauthnData {
+			if e == nil {
+				ok = false
+				continue
+			}
+			c := e.Credential
+			el = append(el, fmt.Sprintf("(%s, mk_wa %s %s %s %s %s %s %s %s %s)", c15CoqInt(k), c15CoqBool(e.Enabled), c15CoqTime(e.CreatedAt), c15CoqStr(e.Name),
+				c15CoqGbytes(c.ID), c15CoqGbytes(c.PublicKey), c15CoqStr(c.AttestationType),
+				c15CoqGbytes(c.Authenticator.AAGUID), c15CoqUint(uint64(c.Authenticator.SignCount)), c15CoqBool(c.Authenticator.CloneWarning)))
+		}
+		waMap = "(Some [" + strings.Join(el, ";") + "])"
+	}
+	pending := "None"
+	if p.PendingTOTPSecret != nil {
+		pending = "(Some " + c15CoqBytesList(*p.PendingTOTPSecret) + ")"
+	}
+	term = fmt.Sprintf("(mk_profile %s %s %s %s %s (mk_boot %s %s) %s %s %s %s %s %s)",
+		u2fMap, c15CoqChallenge(p.RegistrationChallenge), pending, c15CoqInt(p.LastSuccessfullTOTPCounter), totpMap,
+		c15CoqTime(p.BootstrapOTP.ExpiresAt), c15CoqGbytes(p.BootstrapOTP.Sha512Hash), c15CoqBool(p.UserHasRegistered2ndFactor),
+		waMap, c15CoqUint(p.WebauthnID), c15CoqStr(p.DisplayName), c15CoqStr(p.Username), c15CoqSession(p.WebauthnSessionData))
+	return term, ok
+}
+
+// the (saved, loaded) pairs of a run
+type c15ProfilePairs struct {
+	terms    []string
+	idx      []string
+	max      int
+	rejected int
+}
+
+// the pairs of the histories (part 1)
+var c15HistPairs = &c15ProfilePairs{max: 40}
+
+// loaded == nil (LoadUserProfile returned an error) is shipped as the zero profile
+func (pp *c15ProfilePairs) add(what string, saved, loaded *userProfile) {
+	if len(pp.terms) >= pp.max {
+		return
+	}
+	if loaded == nil {
+		loaded = &userProfile{}
+	}
+	s, ok1 := c15CoqProfile(saved)
+	l, ok2 := c15CoqProfile(loaded)
+	if !ok1 || !ok2 {
+		return
+	}
+	pp.terms = append(pp.terms, "("+s+",\n  "+l+")")
+	q := strconv.QuoteToASCII(what) // one line, ASCII (the canonical text holds random bytes)
+	pp.idx = append(pp.idx, q[1:len(q)-1])
+}
+
+// the case file CasesC15p.v; the names of Model/Profile.v stay inside the module
+func (pp *c15ProfilePairs) coq() string {
+	var sb strings.Builder
+	sb.WriteString("Require KM.Model.Profile.\nModule C15P.\nImport KM.Model.Profile.\nLocal Open Scope N_scope.\n")
+	sb.WriteString("Definition sb (n : N) (ws : list int) : bs := unpack (N.to_nat n) ws.\nDefinition pdig (n : N) (w : int) : bs := (256 + n) :: le_bytes 6 (N_of_int w).\n")
+	sb.WriteString("Definition pcases : list pcase := [\n" + strings.Join(pp.terms, ";\n") + "\n].\n")
+	sb.WriteString("End C15P.\n")
+	sb.WriteString("Definition c15_profile_npairs := Eval vm_compute in length C15P.pcases.\nPrint c15_profile_npairs.\n")
+	sb.WriteString("Definition c15_profile_mismatches := Eval vm_compute in KM.Model.Profile.pmismatches KM.Model.Profile.pcase_ok C15P.pcases.\nPrint c15_profile_mismatches.\n")
+	sb.WriteString("Definition c15_profile_violating := Eval vm_compute in KM.Model.Profile.pmismatches KM.Model.Profile.pcase_content_kept C15P.pcases.\nPrint c15_profile_violating.\n")
+	return sb.String()
 }
 
 // ---------------------------------------------------------------- rich profiles
@@ -403,6 +643,13 @@ func (h *c15Hist) save(u, b int) {
 	if err == nil && h.e.mode == c15Up {
 		// the round trip itself: what was saved is what is read back
 		got, ok, fromCache, lerr := h.e.st.LoadUserProfile(c15Users[u])
+		// the first such pairs of the run also go to Coq (Model/Profile.v), and so does every pair the comparison below rejects
+		if same := got != nil && c15Canon(got) == c15Canon(h.pool[b-1]); (same && len(c15HistPairs.terms) < 24) || (!same && c15HistPairs.rejected < 8) {
+			if !same {
+				c15HistPairs.rejected++
+			}
+			c15HistPairs.add(fmt.Sprintf("profile %d saved for %s and loaded from the primary (ok=%v fromCache=%v err=%v) at the end of the history %s", b, c15Users[u], ok, fromCache, lerr, strings.Join(h.human[len(h.human)-minInt(len(h.human), 12):], " ")), h.pool[b-1], got)
+		}
 		if lerr != nil || !ok || fromCache || c15Canon(got) != c15Canon(h.pool[b-1]) {
 			h.e.res.hit(verifHit{Key: "C15:roundtrip:primary", Oracle: "a saved profile is read back identical from the primary",
 				What:     fmt.Sprintf("profile %d saved for %s, LoadUserProfile gave ok=%v fromCache=%v err=%v equal=%v", b, c15Users[u], ok, fromCache, lerr, got != nil && c15Canon(got) == c15Canon(h.pool[b-1])),
@@ -1254,6 +1501,17 @@ func TestVerif_C15(t *testing.T) {
 	}
 	e.wipe()
 	gobBad := 0
+	// every (saved, loaded) pair goes to Coq in the representation of Model/Profile.v (c15profile.go)
+	ppairs := &c15ProfilePairs{max: 600}
+	ppairs.terms, ppairs.idx = append(ppairs.terms, c15HistPairs.terms...), append(ppairs.idx, c15HistPairs.idx...)
+	for i, p := range pool { // the six profiles of the histories (extensions map, two-entry maps, ...)
+		user := "pool" + strconv.Itoa(i)
+		if err := e.st.SaveUserProfile(user, p); err != nil {
+			t.Fatalf("pool save: %v", err)
+		}
+		got, _, _, _ := e.st.LoadUserProfile(user)
+		ppairs.add(fmt.Sprintf("pool profile %d saved for %s and loaded from the primary", i+1, user), p, got)
+	}
 	for i := 0; i < nGob; i++ {
 		p := mat.random(rng)
 		want := c15Canon(p)
@@ -1262,6 +1520,7 @@ func TestVerif_C15(t *testing.T) {
 			t.Fatalf("gob save: %v", err)
 		}
 		got, ok, fromCache, err := e.st.LoadUserProfile(user)
+		ppairs.add(fmt.Sprintf("random profile #%d saved for %s and loaded from the primary (ok=%v fromCache=%v err=%v): %s", i, user, ok, fromCache, err, want[:minInt(len(want), 300)]), p, got)
 		okP := err == nil && ok && !fromCache && c15Canon(got) == want
 		okC := true
 		if i%5 == 0 {
@@ -1270,6 +1529,7 @@ func TestVerif_C15(t *testing.T) {
 			}
 			e.setMode(c15Slow)
 			got2, ok2, fromCache2, err2 := e.st.LoadUserProfile(user)
+			ppairs.add(fmt.Sprintf("random profile #%d saved for %s, copied, loaded with the primary slow (ok=%v fromCache=%v err=%v): %s", i, user, ok2, fromCache2, err2, want[:minInt(len(want), 300)]), p, got2)
 			okC = err2 == nil && ok2 && fromCache2 && c15Canon(got2) == want
 			e.setMode(c15Up)
 		}
@@ -1442,6 +1702,12 @@ func TestVerif_C15(t *testing.T) {
 	sb.WriteString("Definition c15_violating := Eval vm_compute in violating_cases cases.\nPrint c15_violating.\n")
 	sb.WriteString("Definition c15_history_mismatches := Eval vm_compute in mismatches (fun c => negb (history_ok c)) cases.\nPrint c15_history_mismatches.\n")
 	sb.WriteString("Definition c15_handler_mismatches := Eval vm_compute in mismatches (fun c => negb (handler_ok c)) hcases.\nPrint c15_handler_mismatches.\n")
+	// a file of its own: lib/checks/c15.py compiles it while CasesC15.v is being evaluated
+	if err := ioutil.WriteFile(filepath.Join(verifOut(), "CasesC15p.v"), []byte(coqCaseHeader+ppairs.coq()), 0644); err != nil {
+		t.Fatal(err)
+	}
+	ioutil.WriteFile(filepath.Join(verifOut(), "CasesC15p.idx"), []byte(strings.Join(ppairs.idx, "\n")+"\n"), 0644)
+	res.Extra["profile_pairs"] = len(ppairs.terms)
 	if err := ioutil.WriteFile(filepath.Join(verifOut(), "CasesC15.v"), []byte(sb.String()), 0644); err != nil {
 		t.Fatal(err)
 	}
